@@ -881,6 +881,11 @@ def cdf_checks():
 
 
 def run(ctx):
+    # a sampler or density that does not return ends its unit of work after
+    # this many seconds (reported as a violation by vlib.main)
+    import os
+    os.environ["VERIF_TASK_TIMEOUT_S"] = "150" if ctx.tier == "quick" \
+        else "3600"
     cont = [c[0] for c in continuous_cases()]
     disc = [c[0] for c in discrete_cases()]
     ev = 0
